@@ -7,7 +7,7 @@ PROP = {
     "required_theorems": ["Verif.Properties.C11.C11_Int8_add", "Verif.Properties.C11.C11_Int64_sub", "Verif.Properties.C11.C11_Int32_mul", "Verif.Properties.C11.C11_Int64_div", "Verif.Properties.C11.C11_Int8_mod", "Verif.Properties.C11.C11_Int128_add", "Verif.Properties.C11.C11_Int256_mul", "Verif.Properties.C11.C11_UInt8_add", "Verif.Properties.C11.C11_UInt64_mul", "Verif.Properties.C11.C11_UInt128_sub", "Verif.Properties.C11.C11_Int_add", "Verif.Properties.C11.C11_UInt_sub", "Verif.Properties.C11.C11_Int16_neg"],
     "streams": [
         {"name": "num", "driver": "drv_num",
-         "quick": {"n": 400}, "thorough": {"n": 20000, "seeds": 4}},
+         "quick": {"n": 400}, "thorough": {"n": 8000, "seeds": 3}},
     ],
     "exhaustive": True,
     "technique": "Lean 4 theorems about definitions regenerated from interpreter/value_*.go by a semantic Go->Lean "
